@@ -33,7 +33,7 @@ func genHist(r *vh.Rand, prop string, idx int) Hist {
 		FreeData:           1,
 		FreeParity:         1,
 		FreeSize:           r.Pick64([]int64{1 * MB, 64 * MB, GB}),
-		FreeReadFrac:       pickF(r, []float64{0, 0.2, 0.5, 1}),
+		FreeReadFrac:       pickF(r, []float64{0, 0.2, 0.5, 0.2, 0.1, 1}),
 		FreeMaxWP:          100e10,
 		FreeMaxRP:          100e10,
 		MaxIndivFree:       100e10,
@@ -526,26 +526,33 @@ func (g *Gen) Next(run *Run) Op {
 
 	case "read":
 		l, a := g.pickAlloc(s)
+		// prefer an open, unexpired allocation and a client that has a read pool
+		for try := 0; try < 4 && (a == nil || a.Exp < run.Now+dt); try++ {
+			l, a = g.pickAlloc(s)
+		}
 		o := Op{K: "read", Dt: dt, A: l, C: cli(), B: r.Intn(nb), S: r.Intn(nb)}
+		for try := 0; try < 4 && s.RP[o.C] == 0; try++ {
+			o.C = cli()
+		}
+		if s.RP[o.C] == 0 && !r.Chance(1, 6) {
+			return Op{K: "rplock", Dt: dt, S: o.C, V: r.PickU64([]uint64{1e10, 1e9, 1e11})}
+		}
 		if a != nil && len(a.BAs) > 0 && !r.Chance(1, 12) {
 			o.B = a.BAs[r.Intn(len(a.BAs))].Blobber
 			o.S = o.B
 		}
-		if g.ctr == nil {
-			g.ctr = map[[3]int]int64{}
-		}
 		last := s.ReadCtr[[3]int{o.B, o.C, l}]
-		switch r.Intn(10) {
-		case 0:
+		switch x := r.Intn(12); {
+		case x == 0 && last > 0:
 			o.N = last // replay
-		case 1:
-			o.N = last - r.Pick64([]int64{1, 5}) // older
-		case 2:
+		case x == 1 && last > 1:
+			o.N = last - r.Pick64([]int64{1, last / 2}) // older
+		case x == 2:
 			o.N = r.Pick64([]int64{0, -3})
-		case 3:
-			o.N = last + r.Pick64([]int64{100000, 1 << 20, 1 << 34})
+		case x == 3:
+			o.N = last + r.Pick64([]int64{100000, 1 << 20, 1 << 34, 1 << 50})
 		default:
-			o.N = last + r.Pick64([]int64{1, 2, 10, 100, 16384})
+			o.N = last + r.Pick64([]int64{1, 2, 10, 100, 16384, 1000, 16383})
 		}
 		switch r.Intn(30) {
 		case 0, 1:
@@ -554,11 +561,11 @@ func (g *Gen) Next(run *Run) Op {
 			o.X |= xBadID
 		case 3:
 			if a != nil {
-				o.M = a.Exp - run.Now - dt + 1
+				o.M = a.Exp - run.Now - dt + r.Pick64([]int64{0, 1})
 			}
 		case 4:
 			if a != nil {
-				o.M = a.Start - run.Now - dt - 1
+				o.M = a.Start - run.Now - dt - r.Pick64([]int64{0, 1})
 			}
 		case 5:
 			o.M = -run.Now - dt // timestamp 0
@@ -607,15 +614,32 @@ func (g *Gen) Next(run *Run) Op {
 		return o
 
 	case "freealloc":
+		// an assigner must be registered first
+		if len(s.Ass) == 0 && !r.Chance(1, 8) {
+			return Op{K: "addassigner", Dt: dt, S: refOwner, C: refAssigner + r.Intn(2), F: pickF(r, []float64{5, 2.5, 100}), G: pickF(r, []float64{20, 7.5, 1000})}
+		}
 		g.NLabel++
 		g.NNonce++
-		perm := r.Perm(nb)
-		bl := []int{perm[0], perm[1]}
-		if r.Chance(1, 5) && nb > 2 {
-			bl = append(bl, perm[2])
+		var good, rest []int
+		for _, b := range r.Perm(nb) {
+			if g.eligible(s, h, b, h.Conf.FreeSize) {
+				good = append(good, b)
+			} else {
+				rest = append(rest, b)
+			}
 		}
-		o := Op{K: "freealloc", Dt: dt, S: cli(), A: g.NLabel, B: r.Intn(2), N: g.NNonce, Bl: bl,
-			F: pickF(r, []float64{1, 0.5, 2, 5, 0.1, 3.00000000001, 0.0000000001, 10, 1e9, -1})}
+		bl := append(append([]int{}, good...), rest...)
+		n := 2
+		if r.Chance(1, 5) && nb > 2 {
+			n = 3
+		}
+		bl = bl[:n]
+		ab := r.Intn(2)
+		for try := 0; try < 3 && s.Ass[refAssigner+ab] == nil; try++ {
+			ab = r.Intn(2)
+		}
+		o := Op{K: "freealloc", Dt: dt, S: cli(), A: g.NLabel, B: ab, N: g.NNonce, Bl: bl,
+			F: pickF(r, []float64{1, 0.5, 2, 5, 2.5, 0.3, 1, 2, 3.00000000001, 0.0000000001, 10, 101, 1e9, -1})}
 		if r.Chance(1, 5) && g.NNonce > 1 {
 			o.N = r.Pick64([]int64{1, g.NNonce - 1})
 		}
